@@ -56,3 +56,364 @@ Proof.
   destruct (live_get _ _ _ I c Rc) as (nc & Gc). rewrite (bind_getn c nc _ h Gc) in H. unfold ret at 1 in H.
   destruct (negb (nonempty_meas (meas n)) || _); [eapply merge_inv; eauto|inversion H; subst; split; [auto|apply Fr_refl; auto]].
 Qed.
+
+(* ---- Loop.__setitem__(int, v) for a value v that is a tree outside the program --------------------------------------------------------------------- *)
+Lemma nth_error_set_nth' {A} (l : list A) j a k : (j < length l)%nat ->
+  nth_error (set_nth l j a) k = if Nat.eqb k j then Some a else nth_error l k.
+Proof. revert j k; induction l as [|b l IH]; intros [|j] [|k] L; cbn in *; try lia; auto. apply IH. lia. Qed.
+
+Lemma setitem_int_inv h r x idx v h' res :
+  Inv h r -> reach h r x -> LI h v (fun _ => False) -> (forall y, reach h v y -> ~ reach h r y) ->
+  loop_setitem_int x idx v h = (h', res) -> ok_result res -> Inv h' r.
+Proof.
+  intros I Rx LV FV H OK.
+  destruct (live_get _ _ _ I x Rx) as (nx & Gx).
+  destruct (LI_live _ _ _ _ LV (reach_refl _ _)) as (nv & Gv).
+  assert (Nvx : v <> x) by (intros ->; apply (FV x); [constructor|auto]).
+  assert (TREE : forall y, reach h r y -> y <> v) by (intros y Ry ->; apply (FV v); [constructor|auto]).
+  unfold loop_setitem_int, node_setitem_int in H.
+  unfold bind at 1 in H. rewrite bind_modn in H. set (h1 := upd h v (set_parent (Some x))) in *.
+  assert (Gx1 : get h1 x = Some nx) by (unfold h1; rewrite get_upd_other; auto).
+  rewrite (bind_getn x nx _ h1 Gx1) in H. rewrite bind_modn in H.
+  set (len := Z.of_nat (length (children nx))) in *.
+  set (pv := if (idx <? 0)%Z then (idx + len)%Z else idx) in *.
+  set (h2 := upd h1 v (set_pidx (Some pv))) in *.
+  assert (G2v : get h2 v = Some (set_pidx (Some pv) (set_parent (Some x) nv))).
+  { unfold h2. apply get_upd_same. unfold h1. now apply get_upd_same. }
+  assert (O2 : forall y, y <> v -> get h2 y = get h y) by (intros; unfold h2, h1; rewrite !get_upd_other; auto).
+  destruct (py_index len idx) as [i|] eqn:PI.
+  2:{ inversion H; subst. eapply Inv_frame; [|exact I]. intros y Ry. apply O2. auto. }
+  assert (Ij : (0 <= i < len)%Z /\ pv = i).
+  { unfold py_index in PI. unfold pv.
+    destruct ((0 <=? idx)%Z && (idx <? len)%Z) eqn:E1.
+    - inversion PI; subst. apply andb_prop in E1 as (A1 & A2). apply Z.leb_le in A1. apply Z.ltb_lt in A2.
+      assert ((i <? 0)%Z = false) by (apply Z.ltb_ge; lia). rewrite H0. lia.
+    - destruct ((- len <=? idx)%Z && (idx <? 0)%Z) eqn:E2; [|discriminate].
+      inversion PI; subst. apply andb_prop in E2 as (A1 & A2). apply Z.leb_le in A1. rewrite A2. apply Z.ltb_lt in A2. lia. }
+  destruct Ij as (Ri & Epv). set (j := Z.to_nat i) in *.
+  assert (Lj : (j < length (children nx))%nat) by (unfold j, len in *; lia).
+  destruct (nth_error (children nx) j) as [o|] eqn:No; [|apply nth_error_None in No; lia].
+  set (new := set_nth (children nx) j v) in *.
+  rewrite bind_modn in H. set (h3 := upd h2 x (set_children new)) in *.
+  assert (Ro : reach h r o) by (eapply reach_step; eauto; eapply nth_error_In; eauto).
+  assert (Nox : o <> x) by (intros ->; eapply (rp_x_not_own_child h r x nx I Rx Gx); eauto; eapply nth_error_In; eauto).
+  destruct (detach_spec x [v] [o] h3) as (h4 & E4 & LH4 & O4 & _).
+  { intros [E|[]]; congruence. }
+  { intros c [<-|[]]. destruct (live_get _ _ _ I o Ro) as (no & Go). exists no. unfold h3. rewrite get_upd_other by auto. rewrite O2; auto. }
+  rewrite E4 in H.
+  assert (G4x : get h4 x = Some (set_children new nx)).
+  { destruct LH4 as (_ & X & _). rewrite X. unfold h3. apply get_upd_same. rewrite O2; auto. }
+  assert (SAME : forall y, y <> x -> y <> v -> y <> o -> get h4 y = get h y).
+  { intros y N1 N2 N3. rewrite O4 by (left; intros [E|[]]; congruence). unfold h3. rewrite get_upd_other by auto. apply O2; auto. }
+  assert (G4v : get h4 v = Some (set_pidx (Some pv) (set_parent (Some x) nv))).
+  { rewrite O4 by (right; now left). unfold h3. rewrite get_upd_other; auto. }
+  assert (NDc := children_NoDup _ _ _ I x nx Rx Gx).
+  assert (LX : LI h4 x (fun y => y = x)).
+  { apply (LI_node h4 x _ G4x). replace (children (set_children new nx)) with new by (destruct nx; reflexivity).
+    intros k c N. unfold new in N. rewrite nth_error_set_nth' in N by auto.
+    destruct (Nat.eqb_spec k j) as [->|Nk].
+    - inversion N; subst c. split.
+      + eexists; split; [exact G4v|]. destruct nv; cbn. split; auto. rewrite Epv. unfold j. f_equal. lia.
+      + apply (LI_frame h h4 v _ LV). intros y n Ry Gy.
+        assert (Nyx : y <> x) by (intros ->; apply (FV x); auto).
+        assert (Nyo : y <> o) by (intros ->; apply (FV o); auto).
+        destruct (Nat.eq_dec y v) as [->|Nyv].
+        * assert (n = nv) by congruence. subst. eexists; split; [exact G4v|]. split; [destruct nv; repeat split|congruence].
+        * exists n. rewrite SAME; auto. repeat split; auto.
+    - assert (Hc : In c (children nx)) by (eapply nth_error_In; eauto).
+      assert (Rc : reach h r c) by (exact (reach_step h r x nx c Rx Gx Hc)).
+      assert (Nco : c <> o).
+      { intros ->. apply Nk. apply (proj1 (NoDup_nth_error _) NDc); [apply nth_error_Some; congruence|congruence]. }
+      assert (Ncx : c <> x) by (intros ->; eapply (rp_x_not_own_child h r x nx I Rx Gx); eauto).
+      split.
+      + destruct (inv_links _ _ _ I _ _ _ _ Rx Gx N) as (nc & Gc & Pc & Ic). exists nc. rewrite SAME; auto.
+      + apply (LI_frame h h4 c _ (LI_sub _ _ _ _ (InvExc_LI _ _ _ I) Rc)). intros y n Ry Gy.
+        destruct (child_subtree_sep h r x nx c y I Rx Gx Hc Ry) as (Nyx & Sep).
+        assert (Nyo : y <> o).
+        { intros ->. destruct (Nat.eq_dec o c); [congruence|]. apply (Sep n0). eapply nth_error_In; eauto. }
+        exists n. rewrite SAME; auto; [repeat split; auto|]. apply TREE. eapply reach_trans; eauto. }
+  assert (OUT : forall y, reach h r y -> ~ reach h x y -> get h4 y = get h y).
+  { intros y Ry NR. apply SAME; auto.
+    - intros ->. apply NR. constructor.
+    - intros ->. apply NR. eapply reach_child; eauto. eapply nth_error_In; eauto. }
+  assert (PP : parent (set_children new nx) = parent nx /\ pidx (set_children new nx) = pidx nx) by (destruct nx; split; reflexivity).
+  destruct PP as (PP1 & PP2).
+  pose proof (replace_inv h h4 r x nx _ I Rx Gx G4x PP1 PP2 LX OUT) as IE.
+  pose proof (rp_reach_x h h4 r x nx I Rx Gx OUT) as Rx4.
+  unfold invalidate_all in H. rewrite fueled_eq in H.
+  destruct (invalidate _ x None h4) as (h5, [[]|e]) eqn:W; inversion H; subst.
+  2:{ destruct OK as (N1 & N2). destruct (invalidate_none_err _ _ _ _ _ W); congruence. }
+  eapply invalidate_none_spec; eauto.
+Qed.
+
+Lemma fresh_foreign h0 h1 r c hi : Inv h0 r -> (forall y, (y < length h0)%nat -> get h1 y = get h0 y) ->
+  Sub h1 (length h0) hi c -> Inv h1 r /\ LI h1 c (fun _ => False) /\ (forall y, reach h1 c y -> ~ reach h1 r y) /\
+  (forall y, reach h0 r y -> reach h1 r y).
+Proof.
+  intros I Pre S. pose proof (Inv_ext _ _ _ Pre I) as I1.
+  assert (Same : forall y, reach h0 r y -> get h1 y = get h0 y) by (intros; apply Pre; eapply live_lt; eauto).
+  split; auto. split; [eapply Sub_LI; eauto|]. split; [|apply reach_frame; auto].
+  intros y Rc Rr. pose proof (sub_range _ _ _ _ S _ Rc). apply (reach_frame' _ _ _ Same) in Rr.
+  pose proof (live_lt _ _ _ I Rr). lia.
+Qed.
+
+Lemma setitem_int_fresh_inv (mk : M id) h0 r x idx h' res :
+  fresh_maker mk h0 ->
+  Inv h0 r -> reach h0 r x -> (c <- mk ;; loop_setitem_int x idx c) h0 = (h', res) -> ok_result res -> Inv h' r.
+Proof.
+  intros FM I0 Rx H OK.
+  unfold bind at 1 in H. destruct (mk h0) as (h1, [c|e]) eqn:B; pose proof (FM _ _ B) as FMB.
+  2:{ inversion H; subst. destruct OK, FMB; congruence. }
+  destruct FMB as (Lc0 & Pre & hi & SC).
+  destruct (fresh_foreign h0 h1 r c hi I0 Pre SC) as (I1 & LV & FV & RR).
+  eapply setitem_int_inv; eauto.
+Qed.
+
+(* ---- Loop.encapsulate ---------------------------------------------------------------------------------------------------------------------------------- *)
+Lemma set_repdef_children x rd h h' res : set_repetition_definition x rd h = (h', res) -> csame h h'.
+Proof.
+  intros H. unfold set_repetition_definition in H. rewrite bind_modn in H.
+  set (h1 := upd h x (set_rdf rd)) in *.
+  assert (C1 : csame h h1) by (apply csame_upd; intros []; reflexivity).
+  eapply csame_trans; [exact C1|]. clear C1.
+  unfold invalidate_parent, bind, getn in H.
+  destruct (get h1 x) as [n|]; [|inversion H; subst; apply csame_refl].
+  destruct (parent n) as [p|]; [|inversion H; subst; apply csame_refl].
+  destruct (get h1 p) as [np|]; [|inversion H; subst; apply csame_refl].
+  destruct (truthy np); [|inversion H; subst; apply csame_refl].
+  unfold invalidate_all in H. rewrite fueled_eq in H.
+  destruct (invalidate_none_cache_only _ _ _ _ _ H) as (CO & _).
+  intros y. specialize (CO y). destruct (get h1 y) as [a|], (get h' y) as [b|]; try contradiction; auto.
+  cbn. rewrite CO. destruct a; reflexivity.
+Qed.
+
+Lemma encapsulate_inv h r x h' res : Inv h r -> reach h r x -> encapsulate x h = (h', res) -> ok_result res -> Inv h' r.
+Proof.
+  intros I Rx H OK. unfold encapsulate in H.
+  destruct (live_get _ _ _ I x Rx) as (nx & Gx). rewrite (bind_getn x nx _ h Gx) in H.
+  set (cs := children nx) in *. set (c := length h).
+  set (ncn := mkNode cs None None None (rdf nx) (wform nx) (meas nx)).
+  set (ha := h ++ [ncn]).
+  destruct (adopt_spec cs c 0%Z ha) as (hb & Ea & Lenb & Othb & Fldb & Adpb).
+  assert (NL : new_loop None cs (rdf nx) (wform nx) (meas nx) h = (hb, R c)).
+  { unfold new_loop, bind, alloc. fold ncn. fold ha. fold c. rewrite Ea. reflexivity. }
+  rewrite (bind_R _ _ _ _ _ NL) in H.
+  assert (NDc : NoDup cs) by (eapply (children_NoDup _ _ _ I); eauto).
+  assert (Lx : (x < c)%nat) by (eapply get_lt; eauto).
+  assert (LT : forall y, reach h r y -> (y < c)%nat) by (intros; eapply live_lt; eauto).
+  assert (Oa : forall y, (y < c)%nat -> get ha y = get h y) by (intros; apply get_app_l; auto).
+  assert (Gca : get ha c = Some ncn) by apply get_app_new.
+  assert (NIc : ~ In c cs).
+  { intros HIn. assert (reach h r c) by (eapply reach_step; eauto). specialize (LT c H0). lia. }
+  assert (NIx : ~ In x cs) by (intros HIn; eapply (rp_x_not_own_child h r x nx I Rx Gx); eauto).
+  assert (Gxb : get hb x = Some nx) by (rewrite Othb by auto; rewrite Oa; auto).
+  assert (Gcb : get hb c = Some ncn) by (rewrite Othb; auto).
+  (* the slice assignment x[:] = [c] *)
+  destruct (loop_setitem_slice x None None None [c] hb) as (hd, r1) eqn:E1.
+  pose proof E1 as E1'. unfold loop_setitem_slice in E1.
+  destruct (setitem_simple_eval hb x nx None None None [c] (or_introl eq_refl) Gxb) as
+    (hc & new & Ec & Lenc & Gxc & LK & SAME & POS & MEM & VIN & NDn & NIn & FULL & UNT); auto.
+  { intros [E|[]]. lia. }
+  { constructor; [intros []|constructor]. }
+  { intros i ch N. assert (Hch : In ch cs) by (eapply nth_error_In; eauto).
+    destruct (inv_links _ _ _ I _ _ _ _ Rx Gx N) as (n & G & _).
+    destruct (Adpb NDc i ch n N) as (n' & G' & _); [rewrite Oa; auto; eapply get_lt; eauto|]. eauto. }
+  { intros ch [<-|[]]. eauto. }
+  rewrite (bind_R _ _ _ _ _ Ec) in E1.
+  assert (En : new = [c]) by (apply FULL; auto). subst new.
+  (* nodes of the old tree other than x and its children are what they were *)
+  assert (OLD : forall y, (y < c)%nat -> y <> x -> ~ In y cs -> get hc y = get h y).
+  { intros y Ly N1 N2. rewrite SAME; auto; [rewrite Othb by auto; apply Oa; auto|intros [E|[]]; lia]. }
+  (* the former children of x are now the children of c *)
+  assert (KID : forall k ch, nth_error cs k = Some ch ->
+            exists n n', get h ch = Some n /\ get hc ch = Some n' /\ parent n' = Some c /\ pidx n' = Some (Z.of_nat k) /\ keeps n n').
+  { intros k ch N. assert (Hch : In ch cs) by (eapply nth_error_In; eauto).
+    destruct (inv_links _ _ _ I _ _ _ _ Rx Gx N) as (n & G & _).
+    destruct (Adpb NDc k ch n N) as (n' & G' & P' & I'); [rewrite Oa; auto; eapply get_lt; eauto|].
+    destruct (Fldb ch n' G') as (n0 & G0 & F1 & F2 & F3 & F4 & F5). rewrite Oa in G0 by (eapply get_lt; eauto).
+    assert (n0 = n) by congruence. subst n0.
+    exists n, n'. split; auto. split.
+    - rewrite (UNT ch n'); auto; [intros ->; auto|intros [E|[]]; subst; auto|rewrite P'; intros E; inversion E; lia].
+    - repeat split; auto. }
+  assert (LC : LI hc c (fun _ => False)).
+  { assert (Gcc : exists ncc, get hc c = Some ncc /\ children ncc = cs /\ cache ncc = None).
+    { destruct (LK c ncn) as (n' & G' & K'); [lia|auto|]. exists n'. split; auto. unfold lnk in K'. rewrite K'. split; reflexivity. }
+    destruct Gcc as (ncc & Gcc & Ccc & Kcc).
+    assert (L1 : LI hc c (fun y => y = c)).
+    { apply (LI_node hc c ncc Gcc). rewrite Ccc. intros k ch N.
+      destruct (KID k ch N) as (n & n' & G & G' & P' & I' & K'). split; [eauto|].
+      assert (Hch : In ch cs) by (eapply nth_error_In; eauto).
+      assert (Rch : reach h r ch) by (eapply reach_step; eauto).
+      apply (LI_frame h hc ch _ (LI_sub _ _ _ _ (InvExc_LI _ _ _ I) Rch)). intros y ny Ry Gy.
+      destruct (child_subtree_sep h r x nx ch y I Rx Gx Hch Ry) as (Nyx & Sep).
+      destruct (Nat.eq_dec y ch) as [->|Nych].
+      - assert (ny = n) by congruence. subst. exists n'. split; auto. split; auto. congruence.
+      - exists ny. rewrite OLD; auto; [repeat split; auto|]. apply LT. eapply reach_trans; eauto. }
+    split; [apply (li_links _ _ _ L1)|apply (li_wf _ _ _ L1)|].
+    intros y R _. destruct (Nat.eq_dec y c) as [->|N]; [|apply (li_cache _ _ _ L1); auto].
+    intros n q G Cq. assert (n = ncc) by congruence. subst. congruence. }
+  assert (LX : LI hc x (fun y => y = x)).
+  { apply (LI_node hc x _ Gxc). replace (children (set_children [c] nx)) with [c] by (destruct nx; reflexivity).
+    intros k ch N. split; [apply (POS k ch N)|].
+    destruct k; cbn in N; [inversion N; subst; auto|destruct k; discriminate]. }
+  assert (OUT : forall y, reach h r y -> ~ reach h x y -> get hc y = get h y).
+  { intros y Ry NR. apply OLD; auto.
+    - intros ->. apply NR. constructor.
+    - intros Hc. apply NR. eapply reach_child; eauto. }
+  assert (PP : parent (set_children [c] nx) = parent nx /\ pidx (set_children [c] nx) = pidx nx) by (destruct nx; split; reflexivity).
+  destruct PP as (PP1 & PP2).
+  pose proof (replace_inv h hc r x nx _ I Rx Gx Gxc PP1 PP2 LX OUT) as IE.
+  pose proof (rp_reach_x h hc r x nx I Rx Gx OUT) as Rxc.
+  unfold invalidate_all in E1. rewrite fueled_eq in E1.
+  destruct (invalidate_none_cache_only _ _ _ _ _ E1) as (CO & _).
+  destruct r1 as [[]|e].
+  2:{ rewrite (bind_E _ _ _ _ _ E1') in H. inversion H; subst. destruct OK as (N1 & N2).
+      destruct (invalidate_none_err _ _ _ _ _ E1); congruence. }
+  rewrite (bind_R _ _ _ _ _ E1') in H.
+  assert (Id : Inv hd r) by (eapply invalidate_none_spec; eauto).
+  assert (Rxd : reach hd r x) by (eapply reach_shape; [apply cache_only_shape; exact CO|exact Rxc]).
+  unfold set_repetition_count in H.
+  destruct (set_repetition_definition x (RInt 1) hd) as (he, r2) eqn:E2.
+  assert (OK2 : ok_result r2).
+  { destruct r2; cbn; auto. rewrite (bind_E _ _ _ _ _ E2) in H. inversion H; subst. exact OK. }
+  pose proof (set_repetition_definition_inv _ _ _ _ _ _ Id Rxd E2 OK2) as Ie.
+  destruct r2 as [[]|e]; [|rewrite (bind_E _ _ _ _ _ E2) in H; inversion H; subst; auto].
+  rewrite (bind_R _ _ _ _ _ E2) in H. unfold modn in H. inversion H; subst.
+  destruct (cache_only_get _ _ _ _ CO Gxc) as (nxd & Gxd & Exd).
+  pose proof (set_repdef_children _ _ _ _ _ E2 x) as CS. rewrite Gxd in CS.
+  destruct (get he x) as [nxe|] eqn:Gxe; cbn in CS; [|discriminate].
+  eapply modn_wform_nonleaf_inv; eauto.
+  assert (E : children nxe = children nxd) by congruence. rewrite E, Exd. destruct nx; cbn; discriminate.
+Qed.
+
+(* ---- Loop.split_one_child ------------------------------------------------------------------------------------------------------------------------------ *)
+Definition clr (a b : heap) : Prop :=
+  cache_only a b /\ forall y n n', get a y = Some n -> get b y = Some n' -> cache n' = cache n \/ cache n' = None.
+Lemma clr_refl a : clr a a.
+Proof. split; [apply cache_only_refl|]. intros; left; congruence. Qed.
+
+Lemma set_repdef_effect x rd h h' res : set_repetition_definition x rd h = (h', res) -> clr (upd h x (set_rdf rd)) h'.
+Proof.
+  intros H. unfold set_repetition_definition in H. rewrite bind_modn in H.
+  set (h1 := upd h x (set_rdf rd)) in *.
+  unfold invalidate_parent, bind, getn in H.
+  destruct (get h1 x) as [n|]; [|inversion H; subst; apply clr_refl].
+  destruct (parent n) as [p|]; [|inversion H; subst; apply clr_refl].
+  destruct (get h1 p) as [np|]; [|inversion H; subst; apply clr_refl].
+  destruct (truthy np); [|inversion H; subst; apply clr_refl].
+  unfold invalidate_all in H. rewrite fueled_eq in H. apply (invalidate_none_cache_only _ _ _ _ _ H).
+Qed.
+
+Lemma clr_lsame a b : clr a b -> lsame a b.
+Proof.
+  intros (C & _) y. specialize (C y). destruct (get a y) as [n|], (get b y) as [n'|]; try contradiction; auto.
+  cbn. rewrite C. destruct n; reflexivity.
+Qed.
+
+Lemma Sub_clr a b lo hi c : clr a b -> Sub a lo hi c -> Sub b lo hi c.
+Proof.
+  intros (C & K) S. pose proof (clr_lsame a b (conj C K)) as LS. pose proof (lsame_sym _ _ LS) as LS'.
+  pose proof S as [A B C' D E].
+  assert (RR : forall y, reach b c y -> reach a c y) by (intros; eapply reach_lsame; eauto).
+  split.
+  - destruct A as (n & G). destruct (cache_only_get _ _ _ _ C G) as (n' & G' & _); eauto.
+  - intros y R. auto.
+  - intros p np i c0 R G N. destruct (lsame_get _ _ _ _ LS' G) as (n & Gn & Cn & _). rewrite <- Cn in N.
+    destruct (C' p n i c0 (RR _ R) Gn N) as (nc & Gc & Pc & Ic).
+    destruct (lsame_get _ _ _ _ LS Gc) as (nc' & Gc' & _ & P' & I'). exists nc'; repeat split; congruence.
+  - intros p np c0 R G HIn. destruct (lsame_get _ _ _ _ LS' G) as (n & Gn & Cn & _). rewrite <- Cn in HIn. eauto.
+  - intros y n R G. destruct (cache_only_get' _ _ _ _ C G) as (n0 & G0 & _).
+    destruct (K y n0 n G0 G) as [Eq|Eq]; auto. rewrite Eq. eauto.
+Qed.
+
+Definition pureM {A} (m : M A) : Prop := forall h h' res, m h = (h', res) -> h' = h.
+Lemma pure_ret {A} (a : A) : pureM (ret a). Proof. intros h h' res H; inversion H; auto. Qed.
+Lemma pure_raise {A} e : pureM (@raise A e). Proof. intros h h' res H; inversion H; auto. Qed.
+Lemma pure_getn x : pureM (getn x).
+Proof. intros h h' res H. unfold getn in H. destruct (get h x); inversion H; auto. Qed.
+Lemma pure_bind {A B} (m : M A) (k : A -> M B) : pureM m -> (forall a, pureM (k a)) -> pureM (bind m k).
+Proof.
+  intros Pm Pk h h' res H. unfold bind in H. destruct (m h) as (h1, [a|e]) eqn:E; pose proof (Pm _ _ _ E); subst.
+  - eapply Pk; eauto.
+  - inversion H; auto.
+Qed.
+Lemma pure_child_at x i : pureM (child_at x i).
+Proof.
+  unfold child_at. apply pure_bind; [apply pure_getn|]. intros n.
+  destruct (py_index _ i); [|apply pure_raise]. destruct (nth_error _ _); [apply pure_ret|apply pure_raise].
+Qed.
+Lemma child_at_In x i h h' c : child_at x i h = (h', R c) -> exists n, get h x = Some n /\ In c (children n).
+Proof.
+  unfold child_at, bind, getn. destruct (get h x) as [n|]; [|discriminate].
+  destruct (py_index _ i); [|discriminate]. destruct (nth_error _ _) eqn:N; [|discriminate].
+  intros H; inversion H; subst. exists n; split; auto. eapply nth_error_In; eauto.
+Qed.
+
+Lemma split_inv h r x ci h' res : Inv h r -> reach h r x -> split_one_child x ci h = (h', res) -> ok_result res -> Inv h' r.
+Proof.
+  intros I Rx H OK. unfold split_one_child in H.
+  destruct (live_get _ _ _ I x Rx) as (nx & Gx). rewrite (bind_getn x nx _ h Gx) in H.
+  set (PH := match ci with Some i0 => _ | None => _ end) in H.
+  assert (PP : pureM PH).
+  { unfold PH. destruct ci as [i0|].
+    - apply pure_bind.
+      + destruct (i0 <? 0)%Z; [destruct (py_index _ i0); [apply pure_ret|apply pure_raise]|apply pure_ret].
+      + intros i. apply pure_bind; [apply pure_child_at|]. intros c. apply pure_bind; [apply pure_getn|].
+        intros nc. destruct (_ <? 2)%Z; [apply pure_raise|apply pure_ret].
+    - intros h0 h0' res0 H0. destruct (pick_split _ _ _ _); inversion H0; auto. }
+  unfold bind at 1 in H. destruct (PH h) as (h0, [idx|e]) eqn:E0; pose proof (PP _ _ _ E0); subst h0; [|inversion H; subst; auto].
+  unfold bind at 1 in H. destruct (child_at x idx h) as (h0, [c|e]) eqn:E1; pose proof (pure_child_at _ _ _ _ _ E1); subst h0;
+    [|inversion H; subst; auto].
+  destruct (child_at_In _ _ _ _ _ E1) as (nx' & Gx' & Hc). assert (nx' = nx) by congruence. subst nx'.
+  assert (Rc : reach h r c) by (eapply reach_step; eauto).
+  (* the copy *)
+  unfold bind at 1 in H. destruct (copy_tree_structure c NPFalse h) as (h1, [new|e]) eqn:E2; pose proof (copy_one _ _ _ _ _ E2) as P2.
+  2:{ inversion H; subst. destruct OK, P2; congruence. }
+  destruct P2 as (Pre & SN). set (lo := length h) in *. set (hi := length h1) in *.
+  destruct (fresh_foreign h h1 r new hi I Pre SN) as (I1 & _ & _ & RR1).
+  assert (T1 : forall y, reach h1 r y -> (y < lo)%nat).
+  { intros y R. eapply live_lt; eauto. eapply reach_frame'; [|exact R]. intros; apply Pre; eapply live_lt; eauto. }
+  pose proof (Sub_le _ _ _ _ SN) as Ln.
+  (* new.repetition_count = 1 *)
+  unfold bind at 1 in H. unfold set_repetition_count at 1 in H.
+  destruct (set_repetition_definition new (RInt 1) h1) as (h2, r2) eqn:E3.
+  pose proof (set_repdef_effect _ _ _ _ _ E3) as C3. set (ha := upd h1 new (set_rdf (RInt 1))) in *.
+  assert (Sa : forall y, reach h1 r y -> get ha y = get h1 y).
+  { intros y R. unfold ha. apply get_upd_other. specialize (T1 y R). lia. }
+  assert (Ia : Inv ha r) by (eapply Inv_frame; eauto).
+  assert (SNa : Sub ha lo hi new).
+  { eapply Sub_frame_root; [| |exact SN].
+    - intros y Ry N. unfold ha. apply get_upd_other. auto.
+    - intros n G. unfold ha. erewrite get_upd_same by eauto. eexists; split; [reflexivity|]. destruct n; auto. }
+  assert (I2 : Inv h2 r).
+  { destruct C3 as (CO & K). eapply InvExc_cache_only; [exact CO|exact Ia|].
+    intros z Rz _. eapply cvalid_cache_only_same; eauto. apply (inv_cache _ _ _ Ia); auto. }
+  pose proof (Sub_clr _ _ _ _ _ C3 SNa) as SN2.
+  assert (T2 : forall y, reach h2 r y -> (y < lo)%nat).
+  { intros y R. apply T1. eapply reach_frame'; [exact Sa|]. eapply reach_lsame; [apply lsame_sym; apply clr_lsame; exact C3|exact R]. }
+  assert (R2 : forall y, reach h r y -> reach h2 r y).
+  { intros y R. eapply reach_lsame; [apply clr_lsame; exact C3|]. eapply reach_frame; [exact Sa|]. auto. }
+  destruct r2 as [[]|e]; [|inversion H; subst; auto].
+  (* c.repetition_count -= 1 *)
+  destruct (live_get _ _ _ I2 c (R2 c Rc)) as (nc & Gc). rewrite (bind_getn c nc _ h2 Gc) in H.
+  unfold bind at 1 in H. unfold set_repetition_count at 1 in H.
+  destruct (set_repetition_definition c (RInt (rep_count (rdf nc) - 1)) h2) as (h3, r3) eqn:E4.
+  assert (OK3 : ok_result r3) by (destruct r3; cbn; auto; inversion H; subst; exact OK).
+  pose proof (set_repetition_definition_inv _ _ _ _ _ _ I2 (R2 c Rc) E4 OK3) as I3.
+  pose proof (set_repdef_effect _ _ _ _ _ E4) as C4. set (hb := upd h2 c (set_rdf (RInt (rep_count (rdf nc) - 1)))) in *.
+  assert (LSb : lsame h2 hb) by (apply lsame_upd; intros []; reflexivity).
+  assert (SNb : Sub hb lo hi new).
+  { eapply Sub_frame; [|exact SN2]. intros y Ry. unfold hb. apply get_upd_other. specialize (T2 c (R2 c Rc)). lia. }
+  pose proof (Sub_clr _ _ _ _ _ C4 SNb) as SN3.
+  assert (LS23 : lsame h2 h3) by (intros y; rewrite (LSb y); apply (clr_lsame _ _ C4)).
+  assert (T3 : forall y, reach h3 r y -> (y < lo)%nat).
+  { intros y R. apply T2. eapply reach_lsame; [apply lsame_sym; exact LS23|exact R]. }
+  assert (Rx3 : reach h3 r x) by (eapply reach_lsame; [exact LS23|apply R2; auto]).
+  destruct r3 as [[]|e]; [|inversion H; subst; auto].
+  (* x[idx+1:idx+1] = [new] *)
+  destruct (live_get _ _ _ I3 x Rx3) as (nx3 & Gx3).
+  assert (SS : Subs h3 lo hi [new]) by (econstructor; [exact SN3|constructor]).
+  destruct (fresh_vals_ok h3 r x nx3 lo hi [new] I3 T3 SS Rx3 Gx3) as (V1 & V2 & V3 & V4 & V5).
+  destruct (setslice_inv h3 r x nx3 (Some (idx + 1)%Z) (Some (idx + 1)%Z) None [new] I3 Rx3 Gx3 (or_introl eq_refl) V1 V2 V3 V4 (or_intror V5) h' res H OK)
+    as (I' & _). exact I'.
+Qed.
